@@ -113,9 +113,14 @@ def compute_features(sig, fs, f_range, center_extrema='peak', burst_method='cycl
     df_shape_features = compute_shape_features(sig, fs, f_range, center_extrema=center_extrema,
                                                find_extrema_kwargs=find_extrema_kwargs)
 
-    # Ensure kwargs are a dictionaries
+    # Ensure kwargs are a dictionaries, copied to prevent overwriting the caller's objects
     if burst_method == 'amp' and not isinstance(burst_kwargs, dict):
         burst_kwargs = {}
+    elif isinstance(burst_kwargs, dict):
+        burst_kwargs = burst_kwargs.copy()
+
+    if isinstance(threshold_kwargs, dict):
+        threshold_kwargs = threshold_kwargs.copy()
 
     if not isinstance(threshold_kwargs, dict):
         threshold_kwargs = {}
